@@ -75,6 +75,9 @@ def _reap_children():
 
 
 if __name__ == '__main__':
+    import faulthandler
+    import signal
+    faulthandler.register(signal.SIGUSR1, all_threads=True)       # (kill -USR1 <pid>: where is the check right now?)
     code = main()
     sys.stdout.flush()
     _reap_children()
